@@ -59,3 +59,88 @@ pub open spec fn seqof_ok(min: Option<u64>, max: Option<u64>, ext: bool, n: u64)
     let out = n < len_lb(min) || n > (match max { Some(x) => x, None => 0x7fff_ffff_ffff_ffffu64 });
     n < 16384 && (out || octets_in_profile(min, max))
 }
+
+/// 13.2.2 decoder: a non-extensible INTEGER with bounds
+pub open spec fn dec_integer_c<T: numbers::Number>(bytes: Seq<u8>, pos: int, limit: int, min: Option<i64>, max: Option<i64>) -> Option<(T, int)> {
+    let lo = match min { Some(x) => x, None => 0i64 };
+    let hi = match max { Some(x) => x, None => i64::MAX };
+    match dec_cwn(bytes, pos, limit, (hi - lo) as u64) { Some((v, p)) => Some((T::n_from((lo + v) as i64), p)), None => None }
+}
+
+// ===== compositional round trip (C01) over the descriptor-level specs x_enc / x_dec =====
+
+/// `dec` inverts `enc` on the value v, relative to an arbitrary prefix and tail
+pub open spec fn rt_at<V>(enc: spec_fn(V) -> Seq<bool>, dec: spec_fn(Seq<u8>, int, int) -> Option<(V, int)>, v: V) -> bool {
+    forall|bytes: Seq<u8>, pos: int, limit: int| 0 <= pos && starts_with(bytes, pos, enc(v)) && pos + enc(v).len() <= limit
+        ==> #[trigger] dec(bytes, pos, limit) == Some((v, pos + enc(v).len()))
+}
+
+/// BOOLEAN (x_enc / x_dec of descriptor Boolean<C>)
+pub proof fn lemma_rt_desc_boolean(v: bool)
+    ensures rt_at(|b: bool| seq![b], |bytes: Seq<u8>, pos: int, limit: int| if pos < limit { Some((bit_at(bytes, pos), pos + 1)) } else { None }, v)
+{
+    let bdec = |bytes: Seq<u8>, pos: int, limit: int| if pos < limit { Some((bit_at(bytes, pos), pos + 1)) } else { None::<(bool, int)> };
+    assert forall|bytes: Seq<u8>, pos: int, limit: int| 0 <= pos && starts_with(bytes, pos, seq![v]) && pos + seq![v].len() <= limit
+        implies #[trigger] bdec(bytes, pos, limit) == Some((v, pos + seq![v].len())) by {
+        assert(bit_at(bytes, pos + 0) == seq![v][0]);
+    }
+}
+
+/// OPTIONAL on its own (x_enc / x_dec of `impl for Option<T>`), for ANY element codec that round trips
+pub proof fn lemma_rt_desc_option<V>(enc: spec_fn(V) -> Seq<bool>, dec: spec_fn(Seq<u8>, int, int) -> Option<(V, int)>, v: Option<V>)
+    requires v matches Some(x) ==> rt_at(enc, dec, x)
+    ensures rt_at(
+        |o: Option<V>| match o { Some(x) => seq![true] + enc(x), None => seq![false] },
+        |bytes: Seq<u8>, pos: int, limit: int| if pos >= limit { None } else if bit_at(bytes, pos) {
+            match dec(bytes, pos + 1, limit) { Some((x, p)) => Some((Some(x), p)), None => None } } else { Some((None::<V>, pos + 1)) },
+        v)
+{
+    let oenc = |o: Option<V>| match o { Some(x) => seq![true] + enc(x), None => seq![false] };
+    let odec = |bytes: Seq<u8>, pos: int, limit: int| if pos >= limit { None } else if bit_at(bytes, pos) {
+            match dec(bytes, pos + 1, limit) { Some((x, p)) => Some((Some(x), p)), None => None } } else { Some((None::<V>, pos + 1)) };
+    assert forall|bytes: Seq<u8>, pos: int, limit: int| 0 <= pos && starts_with(bytes, pos, oenc(v)) && pos + oenc(v).len() <= limit
+        implies #[trigger] odec(bytes, pos, limit) == Some((v, pos + oenc(v).len())) by {
+        match v {
+            Some(x) => {
+                lemma_starts_with_split(bytes, pos, seq![true], enc(x));
+                assert(bit_at(bytes, pos + 0) == seq![true][0]);
+                assert(starts_with(bytes, pos + 1, enc(x)));
+            }
+            None => { assert(bit_at(bytes, pos + 0) == seq![false][0]); }
+        }
+    }
+}
+
+/// ENUMERATED (x_enc / x_dec of descriptor Enumerated<C>) given the law of the generated type: e_from(e_index(v)) == Some(v)
+pub proof fn lemma_rt_desc_enumerated<V>(e_index: spec_fn(V) -> u64, e_from: spec_fn(u64) -> Option<V>, std_variants: u64, extensible: bool, v: V)
+    requires e_from(e_index(v)) == Some(v), std_variants >= 1, extensible || e_index(v) < std_variants
+    ensures rt_at(
+        |x: V| x691_index(std_variants, extensible, e_index(x)),
+        |bytes: Seq<u8>, pos: int, limit: int| match dec_index(bytes, pos, limit, std_variants, extensible) {
+            Some((i, p)) => (match e_from(i) { Some(x) => Some((x, p)), None => None }), None => None },
+        v)
+{
+    let enc = |x: V| x691_index(std_variants, extensible, e_index(x));
+    let edec = |bytes: Seq<u8>, pos: int, limit: int| match dec_index(bytes, pos, limit, std_variants, extensible) {
+            Some((i, p)) => (match e_from(i) { Some(x) => Some((x, p)), None => None }), None => None::<(V, int)> };
+    assert forall|bytes: Seq<u8>, pos: int, limit: int| 0 <= pos && starts_with(bytes, pos, enc(v)) && pos + enc(v).len() <= limit
+        implies #[trigger] edec(bytes, pos, limit) == Some((v, pos + enc(v).len())) by {
+        lemma_rt_index(bytes, pos, limit, std_variants, extensible, e_index(v));
+    }
+}
+
+/// INTEGER with bounds, not extensible (x_enc / x_dec of descriptor Integer<T, C>) given the law of the Number impl on the range: n_from(n_i64(v)) == v
+pub proof fn lemma_rt_desc_integer<V>(n_i64: spec_fn(V) -> i64, n_from: spec_fn(i64) -> V, lo: i64, hi: i64, v: V)
+    requires n_from(n_i64(v)) == v, lo <= n_i64(v) <= hi, lo < hi
+    ensures rt_at(
+        |x: V| x691_cwn(lo as int, hi as int, n_i64(x) as int),
+        |bytes: Seq<u8>, pos: int, limit: int| match dec_cwn(bytes, pos, limit, (hi - lo) as u64) { Some((d, p)) => Some((n_from((lo + d) as i64), p)), None => None },
+        v)
+{
+    let enc = |x: V| x691_cwn(lo as int, hi as int, n_i64(x) as int);
+    let idec = |bytes: Seq<u8>, pos: int, limit: int| match dec_cwn(bytes, pos, limit, (hi - lo) as u64) { Some((d, p)) => Some((n_from((lo + d) as i64), p)), None => None::<(V, int)> };
+    assert forall|bytes: Seq<u8>, pos: int, limit: int| 0 <= pos && starts_with(bytes, pos, enc(v)) && pos + enc(v).len() <= limit
+        implies #[trigger] idec(bytes, pos, limit) == Some((v, pos + enc(v).len())) by {
+        lemma_rt_cwn(bytes, pos, limit, lo as int, hi as int, n_i64(v) as int);
+    }
+}
